@@ -71,6 +71,9 @@ def run(ctx):
     rep.rule("C17.R3", "stored states come out of step_callback", 8)
     rep.rule("C17.R4", "ScipyIVP / ScipyDAE assemblies", 10)
     rep.rule("C17.R5", "residual/Jacobian families of the implicit schemes", 12)
+    rep.rule("C17.R7", "DualStormerVerlet's inner iteration (which enforces g, gamma at the end point) measures convergence on an iterate the map cannot overwrite", 2)
+    from .c22 import r5_isolation
+    r5_isolation(ctx, "C17.R7")
     rep.rule("C17.R6", "stored states are not modified after they were stored (K11 may-alias analysis)", 8)
     from .. import alias
     alias.report(rep, "C17.R6", ctx.repo, [(RT, "Rattle"), (BE, "BackwardEuler"), (MO, "Moreau"), (DSV, "DualStormerVerlet"),
@@ -326,6 +329,10 @@ MUTANTS += [
          new="            self.qn, self.un = self.system.step_callback(tn1, qn1, un1)\n\n        self.solver_summary.print()", expect="C17.R6"),
     dict(id="c17-r6-4", what="DualStormerVerlet keeps the stored velocity as work buffer of the next step", file=DSV,
          old="        self.un = un1.copy()\n", new="        self.un = un1\n        self.un[:] = un1\n", expect="C17.R6"),
+]
+MUTANTS += [
+    dict(id="c17-r7-seed", canary=True, what="[seeded by sub-agent] fixed_point_iteration evaluates the in-place Newton map on the live iterate (copies removed)", file=DSV,
+         old="        x_new = fun(x.copy())\n", new="        x_new = fun(x)\n", expect="C17.R7"),
 ]
 NEUTRAL = [
     dict(id="c17-n1", canary=True, what="BackwardEuler: in-place update of a private copy of the previous state", file=BE,
